@@ -1,3 +1,3 @@
 From Coq Require Import Extraction ExtrOcamlBasic.
-From Glb Require Import Check.C12.
-Extraction "model.ml" check_final final_ok.
+From Glb Require Import Check.C11 Check.C12.
+Extraction "model.ml" check_final final_ok acc0 step_acc verdict_of_acc.
